@@ -109,6 +109,7 @@ pub fn scalars() -> Vec<Scalar> {
         Scalar::Str("\"//x\"".into()),
         Scalar::Str("\"/*\"".into()),
         Scalar::Str("\"*/ }\"".into()),
+        Scalar::Str("\"C:\\\"".into()),
         Scalar::Bool(true),
         Scalar::Bool(false),
     ]
